@@ -966,6 +966,9 @@ func (cg *cgen) trinary(node *ast.Trinary, ct calltype) {
 
 func (cg *cgen) inExpr(node *ast.In) {
 	if len(node.Exprs) == 0 {
+		// still evaluate the expression, it may have side effects
+		cg.expr(node.E)
+		cg.emit(op.Pop)
 		cg.emit(op.False)
 		return
 	}
